@@ -135,3 +135,22 @@ Qed.
 (* reader attributes: those of the concatenated array *)
 Definition attrs_spec_b (sizes : list Z) (c : Z) (shape0 shape1 nsamples nchannels : Z) : bool :=
   (shape0 =? zsum sizes) && (shape1 =? c) && (nsamples =? zsum sizes) && (nchannels =? c).
+
+(* ---------------------------------------------------------------------------------------- *)
+(* declarative reading of the NumPy results (no index arithmetic of the implementation)       *)
+(* ---------------------------------------------------------------------------------------- *)
+Section Declarative.
+Context {X : Type}.
+
+(* M[l] for an index list l with entries in [0, len M): the k-th result is the l[k]-th element *)
+Definition Rows_at (M : list X) (l : list Z) (rows : list X) : Prop :=
+  Forall2 (fun i r => 0 <= i /\ nth_error M (Z.to_nat i) = Some r) l rows.
+
+(* M[i] for an integer i in [-len M, len M) *)
+Definition Row_at (M : list X) (i : Z) (r : X) : Prop :=
+  nth_error M (Z.to_nat (if i <? 0 then i + zlen M else i)) = Some r.
+End Declarative.
+
+(* arr[:, cols]: every row is indexed by the same column selector *)
+Definition Cols_of {A} (cs : colsel) (rows out : list (list A)) : Prop :=
+  Forall2 (fun r r' => exists idx, col_indices (zlen r) cs = Some idx /\ Rows_at r idx r') rows out.
